@@ -48,11 +48,11 @@ type Node struct {
 	Kids []*Node
 }
 
-func Const(v interface{}) *Node           { return &Node{Kind: KConst, Val: v} }
+func Const(v interface{}) *Node                { return &Node{Kind: KConst, Val: v} }
 func NamedConst(n string, v interface{}) *Node { return &Node{Kind: KConst, Name: n, Val: v} }
-func Var(n string) *Node                  { return &Node{Kind: KVar, Name: n} }
-func Op(n string, kids ...*Node) *Node    { return &Node{Kind: KOp, Name: n, Kids: kids} }
-func If(c, a, b *Node) *Node              { return &Node{Kind: KIf, Name: "if", Kids: []*Node{c, a, b}} }
+func Var(n string) *Node                       { return &Node{Kind: KVar, Name: n} }
+func Op(n string, kids ...*Node) *Node         { return &Node{Kind: KOp, Name: n, Kids: kids} }
+func If(c, a, b *Node) *Node                   { return &Node{Kind: KIf, Name: "if", Kids: []*Node{c, a, b}} }
 
 func (n *Node) String() string { return Render(n) }
 
@@ -469,11 +469,11 @@ func (v *V) UnmarshalJSON(b []byte) error {
 }
 
 type jnode struct {
-	K int      `json:"k"`
-	N string   `json:"n,omitempty"`
-	V *JV      `json:"v,omitempty"`
-	C []*Node  `json:"c,omitempty"`
-	S string   `json:"src,omitempty"` // informational: rendered text of the root
+	K int     `json:"k"`
+	N string  `json:"n,omitempty"`
+	V *JV     `json:"v,omitempty"`
+	C []*Node `json:"c,omitempty"`
+	S string  `json:"src,omitempty"` // informational: rendered text of the root
 }
 
 func (n *Node) MarshalJSON() ([]byte, error) {
